@@ -696,19 +696,25 @@ let term_f n0 idx =
 let splice code st en repl =
   app (firstn st code) (app repl (skipn en code))
 
+(** val rewrite_step :
+    str list -> str option -> (((nat * nat) * str) * str) -> str option **)
+
+let rewrite_step names acc = function
+| (p, i) ->
+  let (p0, n0) = p in
+  let (st, en) = p0 in
+  (match acc with
+   | Some code ->
+     (match number_of names n0 with
+      | Some k -> Some (splice code st en (term_f k i))
+      | None -> None)
+   | None -> None)
+
 (** val rewrite : str list -> str -> str option **)
 
 let rewrite names eq =
-  fold_left (fun acc m ->
-    let (y, i) = m in
-    let (y0, n0) = y in
-    let (st, en) = y0 in
-    (match acc with
-     | Some code ->
-       (match number_of names n0 with
-        | Some k -> Some (splice code st en (term_f k i))
-        | None -> None)
-     | None -> None)) (rev0 (spans O (fst (segments eq)))) (Some eq)
+  fold_left (rewrite_step names) (rev0 (spans O (fst (segments eq)))) (Some
+    eq)
 
 (** val stream : str list -> seg list -> str -> str option **)
 
